@@ -138,6 +138,30 @@ static cocls::with_allocator<St, cocls::async<void>> frame_coro(St &, Slot *slot
     slot->canary_ok = check(buf, tag);  // the frame memory was exclusively ours while we were suspended
     slot->done = true;
 }
+// the same body as a non-static member function: the coroutine machinery then passes the object first, and with_allocator's
+// operator new has an overload of its own for that shape (This&, Allocator&, ...)
+struct MemberHost {
+    int pad = 0;
+    template <typename St, int N>
+    cocls::with_allocator<St, cocls::async<void>> frame(St &, Slot *slot, int tag) {
+        char buf[N];
+        fill(buf, tag);
+        slot->started = true;
+        co_await slot->gate;
+        slot->canary_ok = check(buf, tag);
+        slot->done = true;
+    }
+};
+static MemberHost g_member_host;
+template <typename St>
+static void start_member_coro(St &st, Slot *slot, int cls, int tag) {
+    if (cls == 0)
+        g_member_host.frame<St, 24>(st, slot, tag).detach();
+    else if (cls == 1)
+        g_member_host.frame<St, 200>(st, slot, tag).detach();
+    else
+        g_member_host.frame<St, 1004>(st, slot, tag).detach();
+}
 template <typename St>
 static void start_coro(St &st, Slot *slot, int cls, int tag) {
     if (cls == 0)
@@ -292,7 +316,11 @@ static void run_policy(seqx::Runner &R, int pol, const std::vector<int> &seq) {
                 auto &st = h->next();
                 uint64_t news_before = seqx::news();
                 int extra_before = g_extra_ctor;
-                start_coro(st, s.get(), cls, tag++);
+                // every other history creates its frames through coroutines that are non-static member functions
+                if ((seq.size() + (size_t)pol) & 1)
+                    start_member_coro(st, s.get(), cls, tag++);
+                else
+                    start_coro(st, s.get(), cls, tag++);
                 uint64_t news = seqx::news() - news_before;
                 if (!s->started) R.fail("storage/coroutine-did-not-start", "coroutine did not run to its first suspension");
                 // a buffer policy places the frame in the caller's buffer, nowhere else
